@@ -45,6 +45,7 @@ def ok_edges(fn, local):
     match / if let (discriminant), `?` (Try::branch + ControlFlow discriminant), is_ok()/is_err()."""
     vals, refs = value_aliases(fn, local)
     cf = set()      # ControlFlow locals from Try::branch(result)
+    opt_vals, opt_refs = set(), set()   # Option locals produced by result.ok()
     bool_ok = set()  # bool locals true iff Ok
     bool_err = set()
     for b in fn.blocks:
@@ -56,10 +57,29 @@ def ok_edges(fn, local):
             continue
         if is_callee(t, r"Result<.*> as std::ops::Try>::branch$") and a["l"] in vals:
             cf.add(t["dest"]["l"])
+        if is_callee(t, r"Result::<.*>::ok$") and a["l"] in vals:
+            # `.ok()`: Some <=> Ok.  Tests of that Option count as tests of the Result
+            ov, orf = value_aliases(fn, t["dest"]["l"])
+            opt_vals |= ov
+            opt_refs |= orf
         if is_callee(t, r"Result::<.*>::is_ok$") and a["l"] in refs:
             bool_ok.add(t["dest"]["l"])
         if is_callee(t, r"Result::<.*>::is_err$") and a["l"] in refs:
             bool_err.add(t["dest"]["l"])
+    if opt_vals:
+        for b in fn.blocks:
+            t = b["t"]
+            if t["k"] != "call" or "p" in t["dest"] or not t["args"]:
+                continue
+            a = op_place(t["args"][0])
+            if a is None or "p" in a:
+                continue
+            if is_callee(t, r"Option<.*> as std::ops::Try>::branch$") and a["l"] in opt_vals:
+                cf.add(t["dest"]["l"])
+            if is_callee(t, r"Option::<.*>::is_some$") and a["l"] in opt_refs:
+                bool_ok.add(t["dest"]["l"])
+            if is_callee(t, r"Option::<.*>::is_none$") and a["l"] in opt_refs:
+                bool_err.add(t["dest"]["l"])
     # propagate bools / cf through moves and `!`
     for _ in range(3):
         for b in fn.blocks:
@@ -95,6 +115,16 @@ def ok_edges(fn, local):
             base = pl["l"]
             proj = pl.get("p", [])
             is_val = (base in vals and not proj) or (base in refs and proj == ["*"]) or (base in cf and not proj)
+            is_opt = (base in opt_vals and not proj) or (base in opt_refs and proj == ["*"])
+            if is_opt and not is_val:
+                some_t = none_t = None
+                for v, tgt in t["cases"]:
+                    if v == "1":
+                        some_t = tgt
+                    elif v == "0":
+                        none_t = tgt
+                out.append((b, some_t if some_t is not None else t["else"], none_t if none_t is not None else t["else"]))
+                continue
             if not is_val:
                 continue
             okt = errt = None
